@@ -103,6 +103,14 @@ CHECKS = {
        'evaluated under 3 namespace maps on 10 documents (HTML from two parsers, XHTML, XML, iframe, inline SVG).',
   design_ref='DESIGN.md §4 C05',
   technique='CrossHair-driven bounded exploration of real select() (solver-chosen selector pairs), metamorphic set laws, replay'),
+ 'C06': dict(
+  text='(a) E2: z3 proves for the live escape patterns that whatever group 1 captures is backslash + 1..6 hex digits + '
+       'optional CSS whitespace (unbounded strings), so int(.,16) is always defined; (b) E1: css_unescape on every string '
+       'up to 3/4 characters and on every hex escape value 0..0xFFFFFF with symbolic digits; (c) E1, time-boxed: 34+8 '
+       'templates with a symbolic slot through the real tokenizer/parser, custom maps with symbolic names/definitions, '
+       'cyclic and colliding maps: only SelectorSyntaxError / NotImplementedError / documented KeyError may escape.',
+  design_ref='DESIGN.md §4 C06',
+  technique='z3 regex inclusion on live escape patterns + CrossHair symbolic execution of real css_unescape/parser, replay'),
 }
 
 NOT_APPLICABLE = {
